@@ -90,6 +90,12 @@ def detect(pdir, ids):
         raise SystemExit("/repo has uncommitted changes: refusing to apply a seeded patch")
     rc, out = sh("git -C %s apply %s" % (EVAL_REPO, os.path.join(pdir, "patch.diff")))
     if rc != 0:
+        # a later fix: commit touched the same lines: use the rebased copy stored beside the original
+        for alt in sorted(glob.glob(os.path.join(pdir, "patch_rebased_*.diff")), reverse=True):
+            rc, out = sh("git -C %s apply %s" % (EVAL_REPO, alt))
+            if rc == 0:
+                break
+    if rc != 0:
         return {"error": "patch does not apply to /repo: " + out[-300:]}
     keep = save_evidence()
     try:
